@@ -35,10 +35,27 @@ executor on a BlockState and the state DB root; "all effects applied" for tx typ
 transfer is checked by the harness' reference (`expectSuccess`) against the real code, not proved.
 -/
 import Aergo.Lemmas.LedgerAtomic
+import Aergo.Lemmas.LedgerFee
 import Aergo.Props.C12
 
 namespace Aergo.Props.C03
 open Aergo.Ledger
+
+/-! ### tie T: the fees the outcomes below speak of are the source's -/
+
+/-- **The base fee and the gas limit of the model are the functions generated from /repo/fee/*.go**
+(`goext bigfn`, regenerated on every run): the fee an ERROR receipt charges at least
+(`failed_only_fee_and_nonce_partial`), the fee of a transfer (`transfer_applies_exactly`) and the
+"not enough gas" run-time failure are statements about the source's formulas. The complete list of tied
+functions is `Props.C01.fee_formulas_are_the_source`. -/
+theorem base_fee_is_the_source (c : Ctx) (n gl usedFee sBal rBal : Nat) (isFD : Bool)
+    (hn : n < 2 ^ 63) (hgl : gl < 2 ^ 64) (hg : 0 < c.gasPrice) :
+    Aergo.Gen.Fee.TxBaseFee c.zeroFee c.version c.gasPrice n = txBaseFee c n ∧
+    ((Aergo.Gen.Fee.GasLimit c.zeroFee c.version isFD gl n c.gasPrice usedFee sBal rBal).2 = true ↔
+      gasLimit c isFD gl n usedFee sBal rBal = none) := by
+  refine ⟨gen_TxBaseFee c n hn, ?_⟩
+  rw [gen_GasLimit c isFD gl n usedFee sBal rBal hn hgl hg]
+  cases gasLimit c isFD gl n usedFee sBal rBal <;> simp
 
 /-! ### three outcomes -/
 
@@ -117,7 +134,7 @@ keeps the 700000 the contract sent it (and the contract keeps them too: `resetAc
 record): more than fee and nonce changed. -/
 theorem failed_tx_leaves_residue :
     (executeTx ctxPub w0 0 txFdDrain).outcome = .failed ∧
-    (executeTx ctxPub w0 0 txFdDrain).w ≠ chargeFeeNonce w0 true 10 100 101250 1 ∧
+    (executeTx ctxPub w0 0 txFdDrain).w ≠ chargeFeeNonce w0 true 10 100 101000 1 ∧
     (executeTx ctxPub w0 0 txFdDrain).w.bal 11 = 1700000 ∧
     (executeTx ctxPub w0 0 txFdDrain).leak = true := by
   refine ⟨by decide, by decide, by decide, by decide⟩
